@@ -229,6 +229,12 @@ func (f *File) enterWriteMode() error {
 		"name": f.name,
 	})
 
+	// Remember how far the file has been read so that writing continues at the cursor
+	cursor := int64(0)
+	if f.readOpReader != nil {
+		cursor = int64(f.readOpReader.BytesRead)
+	}
+
 	if f.readOpReader != nil || f.readOpWriter != nil {
 		if err := f.closeWithoutLocking(); err != nil {
 			return err
@@ -291,7 +297,11 @@ func (f *File) enterWriteMode() error {
 		}
 
 		if !f.flags.Append {
-			if _, err := f.writeBuf.Seek(0, io.SeekStart); err != nil {
+			if f.flags.Truncate {
+				cursor = 0
+			}
+
+			if _, err := f.writeBuf.Seek(cursor, io.SeekStart); err != nil {
 				return err
 			}
 		}
